@@ -32,7 +32,13 @@ func (r *ComDoc) readDir() error {
 	raw := make([]RawDirEnt, count)
 	cooked := make([]DirEnt, count)
 	rootIndex := -1
-	for sector := r.Header.DirNextSector; sector >= 0; sector = r.SAT[sector] {
+	sectors := 0
+	for sector := r.Header.DirNextSector; sector >= 0; {
+		if sectors >= len(r.SAT) {
+			// more directory sectors than there are sectors
+			return errors.New("directory chain contains a loop")
+		}
+		sectors++
 		if err := r.readSectorStruct(sector, raw); err != nil {
 			return err
 		}
@@ -47,6 +53,11 @@ func (r *ComDoc) readDir() error {
 			}
 		}
 		files = append(files, cooked...)
+		next, err := nextInChain(r.SAT, sector)
+		if err != nil {
+			return err
+		}
+		sector = next
 	}
 	if rootIndex < 0 {
 		return errors.New("missing root storage")
@@ -77,19 +88,28 @@ func (r *ComDoc) ListDir(parent *DirEnt) ([]*DirEnt, error) {
 	if parent.Type != DirRoot && parent.Type != DirStorage {
 		return nil, errors.New("ListDir() on a non-directory object")
 	}
-	top := &r.Files[parent.StorageRoot]
-	stack := []*DirEnt{top}
 	var files []*DirEnt
+	if parent.StorageRoot == -1 {
+		// empty storage
+		return files, nil
+	}
+	stack := []int32{parent.StorageRoot}
 	for len(stack) > 0 {
 		i := len(stack) - 1
-		item := stack[i]
+		index := stack[i]
 		stack = stack[:i]
+		if index < 0 || int(index) >= len(r.Files) {
+			return nil, errors.New("directory entry refers to an entry that does not exist")
+		} else if len(files) >= len(r.Files) {
+			return nil, errors.New("directory tree contains a loop")
+		}
+		item := &r.Files[index]
 		files = append(files, item)
 		if item.LeftChild != -1 {
-			stack = append(stack, &r.Files[item.LeftChild])
+			stack = append(stack, item.LeftChild)
 		}
 		if item.RightChild != -1 {
-			stack = append(stack, &r.Files[item.RightChild])
+			stack = append(stack, item.RightChild)
 		}
 	}
 	return files, nil
